@@ -797,6 +797,11 @@ func (in *interp) runFrame(fr *frame) {
 				}
 				fr.visits[b]++
 				if fr.visits[b] > in.path.unwind {
+					if in.path.unwindViolates && !in.speculating {
+						in.ensureModel()
+						in.reportViolation("terminates", fmt.Sprintf("loop at %s in %s still running after %d iterations", in.posString(firstPos(b)), fr.fn, in.path.unwind), in.path.model)
+						panic(abortPath{abortStop, "termination bound exceeded"})
+					}
 					panic(in.abort(abortUnwind, fmt.Sprintf("loop bound %d exceeded in %s at %s", in.path.unwind, fr.fn, in.posString(firstPos(b)))))
 				}
 			}
